@@ -84,16 +84,6 @@ def hexDigitVal (c : Char) : Nat :=
   if isDigit c then c.toNat - 48 else if 'a' ≤ c && c ≤ 'f' then c.toNat - 87 else c.toNat - 55
 def isHexDigit (c : Char) : Bool := isDigit c || ('a' ≤ c && c ≤ 'f') || ('A' ≤ c && c ≤ 'F')
 
-/-- `decimal_literal()`: `[1-9][0-9]*` parsed as `u64` (failure on overflow), cast to `i64` -/
-def parseDecimal : Str → Option (Int64 × Str)
-  | c :: cs =>
-    if '1' ≤ c && c ≤ '9' then
-      let ds := c :: cs.takeWhile isDigit
-      let v := digitsVal 10 ds decVal
-      if v ≤ u64Max then some (Int64.ofNat v, cs.dropWhile isDigit) else none
-    else none
-  | [] => none
-
 def isRadixDigitChar (c : Char) : Bool := isNameChar c || c = '@'
 
 /-- digit value in `parse_shell_literal_number` -/
@@ -117,7 +107,15 @@ def radixLoop (radix : Nat) : Str → Int64 → Option Int64
 def parseShellLiteral (s : Str) (radix : Nat) : Option Int64 :=
   if 2 ≤ radix && radix ≤ 64 then radixLoop radix s 0 else none
 
-/-- `literal_number()`: four ordered alternatives -/
+/-- `decimal_literal()`: `[1-9][0-9]*`, accumulated with wrap-around (`parse_shell_literal_number(s, 10)`) -/
+def parseDecimal : Str → Option (Int64 × Str)
+  | c :: cs =>
+    if '1' ≤ c && c ≤ '9' then
+      (parseShellLiteral (c :: cs.takeWhile isDigit) 10).map (fun v => (v, cs.dropWhile isDigit))
+    else none
+  | [] => none
+
+/-- `literal_number()`: four ordered alternatives; every one accumulates with wrap-around -/
 def parseLiteral (s : Str) : Option (Int64 × Str) :=
   let alt1 : Option (Int64 × Str) :=
     match parseDecimal s with
@@ -130,18 +128,16 @@ def parseLiteral (s : Str) : Option (Int64 × Str) :=
     match s with
     | '0' :: x :: rest =>
       if x = 'x' || x = 'X' then
-        let ds := rest.takeWhile isHexDigit
-        let v := digitsVal 16 ds hexDigitVal
-        if ds.isEmpty || v > i64Max then none else some (Int64.ofNat v, rest.dropWhile isHexDigit)
+        -- the digit string may be empty: a bare `0x` is zero
+        (parseShellLiteral (rest.takeWhile isHexDigit) 16).map (fun v => (v, rest.dropWhile isHexDigit))
       else none
     | _ => none
   let alt3 : Option (Int64 × Str) :=
     match s with
     | '0' :: rest =>
-      let ds := rest.takeWhile (fun c => '0' ≤ c && c ≤ '8')
-      let v := digitsVal 8 ds decVal
-      if ds.any (· = '8') || v > i64Max then none
-      else some (Int64.ofNat v, rest.dropWhile (fun c => '0' ≤ c && c ≤ '8'))
+      -- `"0" ['0'..='8']*`: an `8` is consumed and then rejected as a digit of base 8
+      (parseShellLiteral ('0' :: rest.takeWhile (fun c => '0' ≤ c && c ≤ '8')) 8).map
+        (fun v => (v, rest.dropWhile (fun c => '0' ≤ c && c ≤ '8')))
     | _ => none
   alt1 <|> alt2 <|> alt3 <|> parseDecimal s
 
@@ -149,16 +145,19 @@ def parseLiteral (s : Str) : Option (Int64 × Str) :=
 
 abbrev PR := Option (Expr × Str)
 
-/-- `lvalue()`: `name "[" expression "]"` / `name`; `rec 0` is `expression()` -/
+/-- `lvalue()`: `name "[" _ expression _ "]"` / `name`; `rec 0` is `expression()` -/
 def parseLvalue (rec : Nat → Str → PR) (s : Str) : Option (Target × Str) :=
   match parseName s with
   | none => none
   | some (n, rest) =>
     match rest with
     | '[' :: r1 =>
-      match rec 0 r1 with
-      | some (idx, ']' :: r2) => some (.elem n idx, r2)
-      | _ => some (.var n, rest)
+      match rec 0 (skipWs r1) with
+      | some (idx, r2) =>
+        match skipWs r2 with
+        | ']' :: r3 => some (.elem n idx, r3)
+        | _ => some (.var n, rest)
+      | none => some (.var n, rest)
     | _ => some (.var n, rest)
 
 /-- one prefix/atom rule at level `prec` -/
@@ -256,9 +255,9 @@ def parseInfix (tb : Table) : Nat → Nat → Str → PR
       some (infixLoop (fun x r => (postsFrom tb m).findSome? (fun pe => applyPost (parseInfix tb f) pe.1 pe.2 x r))
               (rest.length + 1) e rest)
 
-/-- `full_expression()`: the empty input is `0`; otherwise `_ expression() _` up to the end -/
+/-- `full_expression()`: an empty or all-blank input is `0`; otherwise `_ expression() _` up to the end -/
 def parse (tb : Table) (s : Str) : Option Expr :=
-  if s.isEmpty then some (.lit 0)
+  if (skipWs s).isEmpty then some (.lit 0)
   else
     match parseInfix tb (s.length + 2) 0 (skipWs s) with
     | some (e, rest) => if (skipWs rest).isEmpty then some e else none
